@@ -24,7 +24,7 @@ def calibrate(case, ds, kw):
     return ds.dts.calibrate_double_ended(**kw) if case.f.double else ds.dts.calibrate_single_ended(**kw)
 
 
-def close(a, b):
+def close(a, b, tol=RTOL):
     a, b = np.asarray(a, float), np.asarray(b, float)
     if a.shape != b.shape:
         return False, np.inf
@@ -36,7 +36,7 @@ def close(a, b):
     scale = np.maximum(np.abs(a[m]), np.abs(b[m]))
     d = np.abs(a[m] - b[m])
     rel = float(np.max(d / np.maximum(scale, 1e-6 * max(float(scale.max()), 1e-300))))
-    return rel <= RTOL, rel
+    return rel <= tol, rel
 
 
 def transformations(case, rng):
@@ -117,8 +117,17 @@ def run_case(ctx, p):
     kw = case.kwargs()
     h0 = ds_hash(f.ds)
     try:
-        out1 = calibrate(case, f.ds, kw)
+        from vlib.props.c07 import capture_run
+        out1, rec0 = capture_run(case)
         out1b = calibrate(case, f.ds, kw)
+        # "to round-off": round-off of a least-squares solution grows with the condition number of the (column-scaled, weighted) normal
+        # matrix; the comparison tolerance is RTOL for cond(N) <= 1e4 and grows linearly beyond (measured: p_cov moves by ~eps*cond(N))
+        Xd = rec0["X"].toarray() * np.sqrt(np.abs(rec0["w"]))[:, None]
+        sv = np.linalg.svd(Xd / np.maximum(np.linalg.norm(Xd, axis=0), 1e-300), compute_uv=False)
+        sv = sv[sv > 1e-9 * sv[0]]
+        condN = float((sv[0] / sv[-1]) ** 2)
+        tol = RTOL * max(1.0, condN * 1e-4)
+        ctx.count("cond(N)>1e4" if condN > 1e4 else "cond(N)<=1e4")
     except Exception as ex:
         ctx.count(f"base-run-raised-{type(ex).__name__}")
         return
@@ -144,7 +153,7 @@ def run_case(ctx, p):
         a, b = sel1(out1), sel2(out2)
         worst = None
         for k in a:
-            ok, rel = close(a[k], b[k])
+            ok, rel = close(a[k], b[k], tol)
             if not ok and (worst is None or rel > worst[1]):
                 worst = (k, rel)
         if worst:
@@ -175,7 +184,7 @@ def run_all(ctx, plist):
 def run(ctx):
     ctx.extra["rule"] = ("seeded single/double-ended calibrations (noise 0.2-5%, 0-1 splices, 0-1 matching pairs, nt 1-3) each run again under: permuted dictionary/stretch order, "
                          "renamed baths, a gain 1e-3..1e3 on one channel with variance x k^2, the same variance as float/array/DataArray/callable, deletion of a random half of the "
-                         f"unreferenced locations, a random permutation of the time steps; temperatures and variances compared at {RTOL} relative; two identical calls bit-identical; "
+                         f"unreferenced locations, a random permutation of the time steps; temperatures and variances compared at {RTOL} relative (x cond(N)/1e4 where the column-scaled normal matrix has a condition number above 1e4); two identical calls bit-identical; "
                          "input dataset hashed before/after")
     ctx.trusted += ["harness vlib/props/c18.py"]
     ctx.assumptions += ["purity of the implementation is observed (hash of the input, repeated call), not proved"]
